@@ -218,6 +218,16 @@ ConvVerdict(b, t) ==
   ELSE IF b.wj < AttrThr(t) THEN "white-not-100"
   ELSE "ok"
 (* b = ConvBits(e): an operator argument is evaluated at most once, and only if it is used *)
+(* The transparency-carrying forms (Alpha<Cam16>, Alpha<partial>; the brief calls them the same conversions "with
+   transparency") give exactly the bare results followed by the transparency that went in; the partial colour obtained
+   through From<Alpha<Cam16>>, through from_color_unclamped(full) and from itself is the projection. *)
+WithAl(v, a) == Append(v, a)
+AlphaFormsAgree(e) ==
+  /\ e.afull = WithAl(e.full, e.al) /\ e.afback = WithAl(e.fback, e.al)
+  /\ e.apart = WithAl(e.part, e.al) /\ e.aproj = WithAl(e.proj, e.al)
+  /\ e.apback = WithAl(e.pback, e.al) /\ e.aexp = WithAl(e.exp, e.al)
+  /\ Len(e.extra) = 3 /\ e.extra[1] = WithAl(e.proj, e.al) /\ e.extra[2] = e.proj /\ e.extra[3] = e.proj
+
 ConvWhyB(e, b) ==
   IF e.panic = 1 THEN "panic"
   ELSE IF ~AllFin(e.x) THEN "ok"
@@ -225,6 +235,7 @@ ConvWhyB(e, b) ==
   ELSE IF ~InDomain(DyV(e.x)) THEN "ok"
   ELSE IF ~ConvFinite(e) THEN "non-finite"
   ELSE IF e.proj # Project(e.full, e.pk) THEN "projection-not-exact"
+  ELSE IF "afull" \in DOMAIN e /\ ~AlphaFormsAgree(e) THEN "alpha-form-differs-or-loses-transparency"
   ELSE ConvVerdict(b, e.t)
 ConvWhy(e) == ConvWhyB(e, ConvBits(e))
 
